@@ -1,7 +1,7 @@
 #!/bin/bash
 # usage: tools/seedeval.sh <ID> <N> [check ids...]  - confirm a sub-agent's seeded change in its worktree, then run our checks against it
 id=$1; n=$2; shift 2
-wt=/tmp/seed/$id; sd=$wt/SEED$n
+wt=${SEEDROOT:-/tmp/seed}/$id; sd=$wt/SEED$n
 [ -f $sd/patch.diff ] || { echo "no patch in $sd"; exit 2; }
 export GOFLAGS= GOPROXY=off GOSUMDB=off GOTOOLCHAIN=local
 cd $wt
